@@ -99,13 +99,19 @@ def se_unit(name, file, qualname, cls, setup, post, loop_specs=None, inline=(), 
         seen = {}
         tmo = TIMEOUT_MS.get(tier, 10000)
         vac = None
+        n_unknown = 0
         vac_seen = set()
         for i, ob in enumerate(E.obligations):
             k = seen.get(ob["name"], 0)
             seen[ob["name"]] = k + 1
             if k:
                 ob = dict(ob, name=f"{ob['name']}#{k}")
-            r = solve_one(ob, timeout_ms=tmo, recheck_cvc5=(tier == "thorough"))
+            # a unit with two undecided obligations is a lost proof anyway: the remaining ones get the short budget only (keeps a check on a
+            # changed tree from spending minutes per obligation in the long fallbacks)
+            short = n_unknown >= 2
+            r = solve_one(ob, timeout_ms=(3000 if short else tmo), use_cvc5=not short, recheck_cvc5=(tier == "thorough" and not short))
+            if r["status"] == "unknown":
+                n_unknown += 1
             r["goal_text"] = str(ob["goal"])[:300]
             if r["status"] == "unsat" and vac is None:
                 # vacuity guard: the hypotheses of every discharged obligation must be satisfiable (one check per distinct
